@@ -768,6 +768,14 @@ func (w *world) canary() (arrived bool) {
 			w.tr.f("canary arrived after %v", time.Since(t0).Round(time.Millisecond))
 			return true
 		}
+		if time.Since(t0) > pushTimeout+time.Second {
+			// its push failed and was recorded: A processed the event, nothing more to learn by waiting
+			key := keys.NewReplicatorRetryDocIDKey(w.b.info.ID.String(), d.id)
+			if has, err := datastore.PeerstoreFrom(w.a.DB.Rootstore()).Has(w.a.Ctx, key.Bytes()); err == nil && has {
+				w.tr.f("canary push failed and was recorded for retry after %v", time.Since(t0).Round(time.Millisecond))
+				return false
+			}
+		}
 		time.Sleep(pollEvery)
 	}
 	w.tr.f("canary did NOT arrive within %v", canaryBudget)
